@@ -77,6 +77,7 @@ type Call struct {
 	I    int    `json:"i"`
 	Cl   int    `json:"cl"` // client id (concurrent histories)
 	Proc string `json:"proc"`
+	Ino  int    `json:"ino"` // simple server: the inode number in the handle
 	// arguments
 	Fh       string `json:"fh"`
 	Fh2      string `json:"fh2"`
